@@ -295,9 +295,12 @@ class ListOf(Ty):
 class MapOf(Ty):
     """dict with symbolic contents (unbounded): keys of shape ``key`` (Str / Int), values of shape ``val``
     (Str / Int / Bool, or ``Iface`` of a by-id interface).  Supports in, [], []=, del, get, pop,
-    setdefault, update, copy, dict(d), copy.copy(d), ==, clear; not iteration / len."""
+    setdefault, update, copy, dict(d), copy.copy(d), ==, clear; not iteration / len.
+    Opaque keys: objects whose interface names the attribute that decides their equality (``map_key``).
+    A value shape without scalar sort (``Any_``, an interface that is not by-id; default) means that the
+    values are not tracked: only the key set is symbolic, a read gives an arbitrary value of that shape."""
 
-    def __init__(self, key, val):
+    def __init__(self, key, val=None):
         self.key = key
         self.val = val
 
@@ -410,6 +413,19 @@ class FixedList(Ty):
         return tuple(vals) if self.as_tuple else vals
 
 
+class FixedDict(Ty):
+    """A concrete dict with exactly the given (concrete) keys; the values have the given shapes."""
+
+    def __init__(self, **fields):
+        self.fields = fields
+
+    def make(self, interp, name):
+        return {k: t.make(interp, '%s[%s]' % (name, k)) for k, t in self.fields.items()}
+
+    def concrete(self, cx, name):
+        return {k: t.concrete(cx, '%s[%s]' % (name, k)) for k, t in self.fields.items()}
+
+
 class Opaq(Ty):
     """A value about which nothing is known and on which nothing is done (passed through)."""
 
@@ -471,9 +487,9 @@ def make_indexed(interp, ty, uid, idx_term, prefix=()):
         f = z3.Function(uid + '[]', *(sorts + [z3.IntSort()]))
         t = f(*idx)
         if ty.lo is not None:
-            st.assume(t >= ty.lo)
+            st.assume_unscoped(t >= ty.lo)
         if ty.hi is not None:
-            st.assume(t <= ty.hi)
+            st.assume_unscoped(t <= ty.hi)
         return SInt(t)
     if isinstance(ty, _Bool):
         f = z3.Function(uid + '[]', *(sorts + [z3.BoolSort()]))
@@ -497,13 +513,14 @@ def indexed_value(interp, ty, base, idx):
     sequence, or a component of such an element): scalars are applications of uninterpreted functions
     named after ``base``, real instances (`Inst`) are built from indexed fields."""
     st = interp.st
-    sorts = [x.sort() for x in idx]
+    idx = tuple(idx)
+    sorts = [x.sort() if hasattr(x, 'sort') else z3.IntSort() for x in idx]
     if isinstance(ty, _Int):
         t = z3.Function(base, *(sorts + [z3.IntSort()]))(*idx)
         if ty.lo is not None:
-            st.assume(t >= ty.lo)
+            st.assume_unscoped(t >= ty.lo)
         if ty.hi is not None:
-            st.assume(t <= ty.hi)
+            st.assume_unscoped(t <= ty.hi)
         return SInt(t)
     if isinstance(ty, _Bool):
         return SBool(z3.Function(base, *(sorts + [z3.BoolSort()]))(*idx))
@@ -512,19 +529,21 @@ def indexed_value(interp, ty, base, idx):
     if isinstance(ty, Opt):
         isn = z3.Function(base + '.is_none', *(sorts + [z3.BoolSort()]))(*idx)
         return SOpt(isn, indexed_value(interp, ty.inner, base, idx))
-    if isinstance(ty, Iface) and not isinstance(ty, Involution):
-        iface = ty.iface() if isinstance(ty.iface, types.FunctionType) else ty.iface
-        return new_opaque(interp, iface, base, index=idx)
+    if isinstance(ty, Const):
+        return ty.value
     if isinstance(ty, OneOf):
         if len(ty.values) == 1:
             return ty.values[0]
         t = z3.Function(base + '.idx', *(sorts + [z3.IntSort()]))(*idx)
-        st.assume(z3.And(t >= 0, t < len(ty.values)))
+        st.assume_unscoped(z3.And(t >= 0, t < len(ty.values)))
         return SChoice(t, ty.values)
-    if isinstance(ty, Const):
-        return ty.value
+    if isinstance(ty, Involution):
+        raise Unsupported('indexed element of type Involution (use it as an attribute)')
+    if isinstance(ty, Iface):
+        iface = ty.iface() if isinstance(ty.iface, types.FunctionType) else ty.iface
+        return new_opaque(interp, iface, base, index=idx)
     if isinstance(ty, Opaq):
-        return OpaqueVal('%s[%s]' % (base, ', '.join(str(z3.simplify(i)) for i in idx)))
+        return OpaqueVal('%s(%s)' % (base, ','.join(str(z3.simplify(i)) for i in idx)))
     if isinstance(ty, Inst):
         cls = ty.cls
         if ty.tuple_items is not None:
@@ -538,9 +557,26 @@ def indexed_value(interp, ty, base, idx):
             v = indexed_value(interp, t, '%s.%s' % (base, k), idx) if isinstance(t, Ty) else t
             object.__setattr__(obj, k, v)
         if ty.invariant is not None:
-            st.assume(interp.truth(interp.call(ty.invariant, [obj], {})))
+            st.assume_unscoped(interp.truth(interp.call(ty.invariant, [obj], {})))
         return obj
-    raise Unsupported('indexed value of type %r' % (ty,))
+    if isinstance(ty, FixedList):
+        vals = [indexed_value(interp, t, '%s[%d]' % (base, i), idx) for i, t in enumerate(ty.elems)]
+        return tuple(vals) if ty.as_tuple else vals
+    if isinstance(ty, FixedDict):
+        return {k: indexed_value(interp, t, '%s[%s]' % (base, k), idx) for k, t in ty.fields.items()}
+    if isinstance(ty, ListOf):
+        n = z3.Function(base + '.len', *(sorts + [z3.IntSort()]))(*idx)
+        st.assume_unscoped(n >= ty.min_len)
+        elem_ty = ty.elem
+
+        def elem(interp2, idx_term, base=base, idx=idx):
+            return indexed_value(interp2, elem_ty, base + '[]', tuple(idx) + (idx_term,))
+
+        out = SList(n, elem, '%s<%s>' % (base, ','.join(z3.simplify(i).sexpr() for i in idx)),
+                    ident=(base, tuple(idx)))
+        out.elem_ty = elem_ty
+        return out
+    raise Unsupported('indexed element of type %r' % (ty,))
 
 
 # ============================================================================ interfaces (opaque objects)
@@ -631,11 +667,11 @@ def new_opaque(interp, iface, name, index=(), preset=None, _is_id=False):
                 break
     if inv is not None:
         f = inv.__func__ if isinstance(inv, staticmethod) else inv
-        assume_pred(interp, f, o)
+        assume_pred(interp, f, o, unscoped=True)
     return o
 
 
-def assume_pred(interp, pred, *args):
+def assume_pred(interp, pred, *args, unscoped=False):
     """Assume a sidecar predicate; parameters beyond the given arguments are ghosts, by name."""
     from .loops import _param_names
     names = _param_names(pred)
@@ -644,7 +680,11 @@ def assume_pred(interp, pred, *args):
         if n not in interp.reg.ghost_env:
             raise Unsupported('predicate %s needs ghost %r which is not in scope' % (getattr(pred, '__name__', pred), n))
         extra.append(interp.reg.ghost_env[n])
-    interp.st.assume(interp.truth(interp.call(pred, list(args) + extra, {})))
+    v = interp.truth(interp.call(pred, list(args) + extra, {}))
+    if unscoped:
+        interp.st.assume_unscoped(v)
+    else:
+        interp.st.assume(v)
 
 
 def _iface_lookup(iface, table, name):
@@ -656,25 +696,11 @@ def _iface_lookup(iface, table, name):
 
 
 def _indexed_scalar(interp, o, name, ty):
-    """Scalar attribute of an indexed opaque: function of the index."""
+    """Attribute of an indexed opaque: function of the index."""
     idx = o._pv_index
     st = interp.st
     base = '%s.%s' % (o._pv_uid, name)
     sorts = [x.sort() for x in idx]
-    if isinstance(ty, _Int):
-        t = z3.Function(base, *(sorts + [z3.IntSort()]))(*idx)
-        if ty.lo is not None:
-            st.assume(t >= ty.lo)
-        if ty.hi is not None:
-            st.assume(t <= ty.hi)
-        return SInt(t)
-    if isinstance(ty, _Bool):
-        return SBool(z3.Function(base, *(sorts + [z3.BoolSort()]))(*idx))
-    if isinstance(ty, _Str):
-        return SStr(z3.Function(base, *(sorts + [z3.StringSort()]))(*idx))
-    if isinstance(ty, Opt):
-        isn = z3.Function(base + '.is_none', *(sorts + [z3.BoolSort()]))(*idx)
-        return SOpt(isn, _indexed_scalar(interp, o, name, ty.inner))
     if isinstance(ty, Involution):
         return ty.make_attr(interp, base, o, index=idx)
     if isinstance(ty, Iface):
@@ -682,13 +708,13 @@ def _indexed_scalar(interp, o, name, ty):
         return new_opaque(interp, iface, base, index=idx)
     if isinstance(ty, OneOf):
         t = z3.Function(base + '.idx', *(sorts + [z3.IntSort()]))(*idx)
-        st.assume(z3.And(t >= 0, t < len(ty.values)))
+        st.assume_unscoped(z3.And(t >= 0, t < len(ty.values)))
         return SChoice(t, ty.values) if len(ty.values) > 1 else ty.values[0]
     if isinstance(ty, Const):
         return ty.value
     if isinstance(ty, ListOf):
         n = z3.Function(base + '.len', *(sorts + [z3.IntSort()]))(*idx)
-        st.assume(n >= ty.min_len)
+        st.assume_unscoped(n >= ty.min_len)
         elem_ty = ty.elem
 
         def elem(interp2, j, base=base, idx=idx):
@@ -760,7 +786,8 @@ class Registry:
         self.loops_by_code = {}
         for (q, ordinal), ls in self.loops.items():
             try:
-                obj, owner = frontend.resolve_qualified(q)
+                # a loop of a nested function: only the enclosing function can be resolved statically
+                obj, owner = frontend.resolve_qualified(q.partition('.<locals>')[0])
             except LookupError as e:
                 self.missing.append((q, str(e)))
                 continue
@@ -1063,6 +1090,20 @@ def call_opaque_method(interp, o, name, m, args, kwargs):
                 iface = m.returns.iface() if isinstance(m.returns.iface, types.FunctionType) else m.returns.iface
                 r = new_opaque(interp, iface, '%s.%s()' % (o._pv_uid, name),
                                index=tuple(o._pv_index) + tuple(to_z3(a) for a in args))
+            elif m.returns is not None and args and all(isinstance(a, (SInt, SBool, SStr, int, str, bool, Opaque))
+                                                        for a in args) \
+                    and (o._pv_index or any(isinstance(a, Opaque) and a._pv_index for a in args)):
+                # a function of (object, arguments) where arguments are scalars or (indexed) opaque objects:
+                # the indices of the opaque arguments are arguments of the function(s) standing for the result
+                name_parts, idx_terms = [], list(o._pv_index)
+                for a in args:
+                    if isinstance(a, Opaque):
+                        name_parts.append(a._pv_uid)
+                        idx_terms.extend(a._pv_index)
+                    else:
+                        idx_terms.append(to_z3(a))
+                r = indexed_value(interp, m.returns, '%s.%s(%s)' % (o._pv_uid, name, ','.join(name_parts)),
+                                  tuple(idx_terms))
             else:
                 r = m.returns.make(interp, '%s.%s()' % (o._pv_uid, name)) if m.returns is not None else None
             o._pv_attrs[key] = r
@@ -1130,7 +1171,7 @@ class Contract:
 
 
 class LoopSpec:
-    def __init__(self, qname, ordinal, invariant, modifies=None, decreases=None, ghosts=None, note=''):
+    def __init__(self, qname, ordinal, invariant, modifies=None, decreases=None, ghosts=None, note='', entry=None):
         self.qname = qname
         self.ordinal = ordinal
         self.invariant = invariant
@@ -1138,6 +1179,7 @@ class LoopSpec:
         self.decreases = decreases
         self.ghosts = ghosts or {}
         self.note = note
+        self.entry = entry          # optional snapshot expression evaluated at loop entry: `_entry` in the invariant
 
 
 class Module:
